@@ -19,11 +19,31 @@ template <typename T> struct Fmt<T, true> {
 template <typename T> struct Fmt<T, false> {
     static std::string get(T v) { char b[96]; std::snprintf(b, sizeof b, "%La", static_cast<long double>(v)); return b; }
 };
+// get_value<T>(M{}) itself, instantiated exactly when the library says "representable" (public API only)
+template <typename T, typename M, bool Rep = au::representable_in<T>(M{})> struct Gv {
+    static std::string get() { return "-"; }
+};
+template <typename T, typename M> struct Gv<T, M, true> {
+    static std::string get() { constexpr T v = au::get_value<T>(M{}); return Fmt<T>::get(v); }
+};
+// outcome / value of the internal detail::get_value_result when that entry point exists; a tree that
+// has refactored it away is read through the public API alone (outcome -1 = "not observed")
+template <typename T, typename M, typename = void> struct Gvr {
+    static std::string get() {
+        return std::string(au::representable_in<T>(M{}) ? "[0,\"" : "[-1,\"") + Gv<T, M>::get() + "\",";
+    }
+};
+template <typename T, typename M>
+struct Gvr<T, M, typename std::enable_if<(sizeof(au::detail::get_value_result<T>(M{}).outcome) > 0)>::type> {
+    static std::string get() {
+        constexpr auto r = au::detail::get_value_result<T>(M{});
+        const int oc = (r.outcome == au::detail::MagRepresentationOutcome::OK) ? 0 : 100 + static_cast<int>(r.outcome);
+        return "[" + std::to_string(oc) + ",\"" + Fmt<T>::get(r.value) + "\",";
+    }
+};
 template <typename T, typename M>
 std::string vr() {
-    constexpr auto r = au::detail::get_value_result<T>(M{});
-    return "[" + std::to_string(static_cast<int>(r.outcome)) + ",\"" + Fmt<T>::get(r.value) + "\"," +
-           (au::representable_in<T>(M{}) ? "1" : "0") + "]";
+    return Gvr<T, M>::get() + (au::representable_in<T>(M{}) ? "1" : "0") + ",\"" + Gv<T, M>::get() + "\"]";
 }
 }
 '''
@@ -96,10 +116,48 @@ def ulp(t, v):
     return Fr(2) ** (e - (DIGITS[t] - 1))
 
 
+# extra spellings of the two 64-bit integer types (distinct types from int64_t/uint64_t on LP64)
+ALIAS = {"long long": "int64_t", "unsigned long long": "uint64_t"}
+TYPES = R11 + sorted(ALIAS)
+
+
+def base_t(t):
+    return ALIAS.get(t, t)
+
+
+def smooth_near(limit, primes=(3, 5, 7)):
+    """largest product of powers of `primes` (each exponent >= 1) that is < limit, and the smallest >= limit."""
+    vals = set()
+
+    def rec(i, v):
+        if i == len(primes):
+            vals.add(v)
+            return
+        v *= primes[i]
+        while v < limit * primes[-1] * 2:
+            rec(i + 1, v)
+            v *= primes[i]
+    rec(0, 1)
+    below = [v for v in vals if v < limit]
+    above = [v for v in vals if v >= limit]
+    return ([max(below)] if below else []) + ([min(above)] if above else [])
+
+
+def power_straddle(base, lo_bound):
+    """exponents k, k+1 with base^-k >= lo_bound > base^-(k+1) (lo_bound a positive Fraction < 1)."""
+    k = 0
+    v = Fr(1)
+    while v / base >= lo_bound:
+        v /= base
+        k += 1
+    return [k, k + 1]
+
+
 def grid(tier):
     primes = [2, 3, 5, 7, 127, 2 ** 31 - 1, 2 ** 61 - 1, 2 ** 64 - 59]
     exps = [1, -1, 2, -2, 3, 4, -4, 8, 16, -16, 31, 32, -32, 63, 64, -64, 127, 128, -128, 1023, 1024, -1024]
     fr = [Fr(1, 2), Fr(-1, 2), Fr(1, 3), Fr(2, 3), Fr(3, 2), Fr(-3, 2)]
+    fr2 = [Fr(1, 4), Fr(3, 4), Fr(-5, 4), Fr(1, 5), Fr(7, 5), Fr(-2, 5), Fr(5, 3), Fr(7, 2)]
     out = [{}]
     for p in primes:
         for e in exps:
@@ -109,9 +167,12 @@ def grid(tier):
         for e in fr:
             if p <= 7 or tier == "thorough":
                 out.append({p: e})
+        for e in fr2:
+            if p == 3 or (tier == "thorough" and p in (2, 5, 127, 2 ** 64 - 59)):
+                out.append({p: e})
     for e in (16383, 16384, -16382, -16383, -16445, -16446, 16385, -1074, -1075, -149, -150, -1022, -126):
         out.append({2: Fr(e)})
-    for c in (1, -1, 2, Fr(1, 2), -3):
+    for c in (1, -1, 2, Fr(1, 2), -3, Fr(2, 3), Fr(-1, 2), Fr(3, 2), Fr(1, 5)):
         out.append({"pi": Fr(c)})
     # products of 2-3 base powers
     combos = [({2: Fr(16384)}, {3: Fr(-1)}), ({2: Fr(16384)}, {3: Fr(-10000)}), ({2: Fr(1024)}, {5: Fr(-1)}), ({2: Fr(128)}, {3: Fr(-1)}),
@@ -132,8 +193,46 @@ def grid(tier):
         for v in (tmax(t) - 1, tmax(t), tmax(t) + 1, 2 * tmax(t) + 1):
             if v < 2 ** 64 * 4:
                 out.append(model.mag_int(v))
+    # --- round 3 ---------------------------------------------------------------------------------
+    # (a) rational powers of 2 straddling FLT/DBL/LDBL max and min through a root, incl. huge numerators
+    for n in (255, 257, 2047, 2049, -251, -253, -2043, -2045, 8191, 16383, 20001, 32767, 32769, -32763, -32765):
+        out.append({2: Fr(n, 2)})
+    for e in (Fr(383, 3), Fr(385, 3), Fr(3071, 3), Fr(3073, 3), Fr(5116, 5), Fr(5121, 5), Fr(511, 4), Fr(513, 4), Fr(49151, 3), Fr(49153, 3)):
+        out.append({2: e})
+    # (b) irrational / non-power-of-two values next to each floating maximum and minimum normal
+    for k in (126, 127, 1022, 1023, 16382, 16383, -127, -128, -150, -1023, -1024, -16383, -16384):
+        out.append({2: Fr(k), "pi": Fr(1)})
+    for k in (127, 1023, 16383):
+        out.append({2: Fr(k), 3: Fr(1, 2)})      # sqrt3 * 2^k < max
+        out.append({2: Fr(k), 5: Fr(1, 2)})      # sqrt5 * 2^k > max
+    for top in (128, 1024, 16384):
+        out.append({2: Fr(top - 65), 3: Fr(41)})   # 3^41/2^65 = 0.9886 -> just below 2^top
+        out.append({2: Fr(top - 19), 3: Fr(12)})   # 3^12/2^19 = 1.0136 -> just above 2^top
+    # (c) decimal / ternary straddles of every floating minimum normal and half the smallest denormal
+    for e in (-37, -38, -307, -308, -4931, -4932, -4950, -4951, -4952):
+        out.append({2: Fr(e), 5: Fr(e)})
+    for t in F3:
+        for b in (3, 7):
+            for k in power_straddle(b, fmin_normal(t) * (1 + Fr(8, 2 ** DIGITS[t]))) + power_straddle(b, denorm_min(t) / 2):
+                out.append({b: Fr(-k)})
+    out.append({2: Fr(-16384), 3: Fr(10000)})      # mirror image of F8 (2^-534 in all)
+    # exactly max(T) = (2^digits - 1) * 2^(MAXEXP - digits): in range by definition, and every partial product is exact
+    for t in F3:
+        out.append(model.vmul(model.mag_int(2 ** DIGITS[t] - 1), {2: Fr(MAXEXP[t] - DIGITS[t])}))
+    # (d) 3-5-7-smooth (and 2-3-5-7-smooth) integers next to every integral limit: the running product
+    #     of base powers reaches the limit only with the last factor
+    for k in (7, 8, 15, 16, 31, 32, 63, 64):
+        for ps in ((3, 5, 7), (2, 3, 5, 7)) if (tier == "thorough" or k >= 31) else ((3, 5, 7),):
+            for v in smooth_near(2 ** k, ps):
+                out.append(model.mag_int(v))
+    if tier == "thorough":
+        for k in (7, 8, 15, 16, 31, 32, 63, 64):
+            for ps in ((3, 11), (5, 13, 17), (2, 127), (7, 2 ** 31 - 1)):
+                for v in smooth_near(2 ** k, ps):
+                    out.append(model.mag_int(v))
     seen, res = set(), []
     for m in out:
+        m = {b: e for b, e in m.items() if e != 0}
         k = model.mag_key(m)
         if k not in seen:
             seen.add(k)
@@ -141,8 +240,47 @@ def grid(tier):
     return res
 
 
+# differently constructed magnitudes: (expr a, model a, expr b, model b); == / != / type identity must
+# all follow the exact values
+_PI = "au::Magnitude<au::Pi>{}"
+EQ_PAIRS = [
+    ("au::mag<6>()", {2: 1, 3: 1}, "au::mag<2>() * au::mag<3>()", {2: 1, 3: 1}),
+    ("au::mag<2>() * au::mag<3>()", {2: 1, 3: 1}, "au::mag<3>() * au::mag<2>()", {2: 1, 3: 1}),
+    ("au::pow<2>(au::mag<2>())", {2: 2}, "au::mag<4>()", {2: 2}),
+    ("au::root<2>(au::mag<4>())", {2: 1}, "au::mag<2>()", {2: 1}),
+    ("au::pow<2>(au::root<2>(au::mag<5>()))", {5: 1}, "au::mag<5>()", {5: 1}),
+    ("au::pow<3>(au::root<3>(au::mag<2>()))", {2: 1}, "au::mag<2>()", {2: 1}),
+    ("au::root<4>(au::mag<4>())", {2: Fr(1, 2)}, "au::root<2>(au::mag<2>())", {2: Fr(1, 2)}),
+    ("au::root<2>(au::mag<8>())", {2: Fr(3, 2)}, "au::mag<2>() * au::root<2>(au::mag<2>())", {2: Fr(3, 2)}),
+    ("au::mag<7>() / au::mag<7>()", {}, "au::ONE", {}),
+    ("au::pow<0>(au::mag<7>())", {}, "au::ONE", {}),
+    (_PI + " / " + _PI, {}, "au::ONE", {}),
+    ("au::mag<4>() / au::mag<6>()", {2: 1, 3: -1}, "au::mag<2>() / au::mag<3>()", {2: 1, 3: -1}),
+    ("au::mag<12>() / au::mag<18>()", {2: 1, 3: -1}, "au::mag<10>() / au::mag<15>()", {2: 1, 3: -1}),
+    ("au::pow<-1>(au::mag<2>())", {2: -1}, "au::ONE / au::mag<2>()", {2: -1}),
+    ("au::mag<18446744073709551557u>() * au::ONE", {2 ** 64 - 59: 1}, "au::mag<18446744073709551557u>()", {2 ** 64 - 59: 1}),
+    ("au::pow<2>(" + _PI + ") / " + _PI, {"pi": 1}, _PI, {"pi": 1}),
+    ("au::mag<1000>()", {2: 3, 5: 3}, "au::pow<3>(au::mag<10>())", {2: 3, 5: 3}),
+    # distinct, some of them close in value
+    ("au::mag<2>()", {2: 1}, "au::mag<3>()", {3: 1}),
+    ("au::mag<2>()", {2: 1}, "au::pow<2>(au::mag<2>())", {2: 2}),
+    ("au::mag<2>()", {2: 1}, "au::root<2>(au::mag<2>())", {2: Fr(1, 2)}),
+    ("au::mag<2>()", {2: 1}, "au::pow<-1>(au::mag<2>())", {2: -1}),
+    ("au::mag<6>()", {2: 1, 3: 1}, "au::mag<2>()", {2: 1}),
+    ("au::mag<6>()", {2: 1, 3: 1}, "au::mag<3>()", {3: 1}),
+    ("au::mag<6>()", {2: 1, 3: 1}, "au::mag<2>() / au::mag<3>()", {2: 1, 3: -1}),
+    (_PI, {"pi": 1}, "au::mag<355>() / au::mag<113>()", {5: 1, 71: 1, 113: -1}),
+    (_PI, {"pi": 1}, "au::mag<3>()", {3: 1}),
+    ("au::pow<2>(" + _PI + ")", {"pi": 2}, "au::mag<10>()", {2: 1, 5: 1}),
+    ("au::root<2>(au::mag<2>())", {2: Fr(1, 2)}, "au::mag<99>() / au::mag<70>()", {3: 2, 11: 1, 2: -1, 5: -1, 7: -1}),
+    ("au::mag<18446744073709551557u>()", {2 ** 64 - 59: 1}, "au::mag<18446744073709551558u>()", model.mag_int(2 ** 64 - 58)),
+    ("au::ONE", {}, "au::mag<2>()", {2: 1}),
+]
+
+
 def expected_rep(t, m):
     """-> (verdict, exact) with verdict in True / False / None (don't care)."""
+    t = base_t(t)
     lg = approx_log2(m)
     if t in I8:
         if not model.mag_is_integer(m) and m:
@@ -162,6 +300,8 @@ def expected_rep(t, m):
         return None, None
     evf = ev if isinstance(ev, Fr) else Fr(ev)
     mx = fmax(t)
+    if evf == mx:
+        return True, evf            # exactly max(T) lies within the range (no rounding involved anywhere)
     if evf > mx * (1 + Fr(8, 2 ** DIGITS[t])):
         return False, evf
     if evf > mx * (1 - Fr(8, 2 ** DIGITS[t])):
@@ -171,6 +311,16 @@ def expected_rep(t, m):
     if evf < denorm_min(t) / 2:
         return False, evf
     return None, evf          # denormal range: either answer, but a positive value close to exact if "yes"
+
+
+def light_literal(m):
+    """integer magnitude below 2^64 whose mag<N>() literal needs no Pollard rho at compile time -> N, else None."""
+    if not m or not model.mag_is_integer(m) or approx_log2(m) >= 64:
+        return None
+    if sum(int(e) for b, e in m.items() if b > 2 ** 20) >= 2:
+        return None
+    v = model.mag_fraction(m)
+    return int(v) if 1 < v < 2 ** 64 else None
 
 
 def check(run):
@@ -186,32 +336,70 @@ def check(run):
                'vf_kv("den", vf::MagJson<decltype(au::denominator(M{}))>::get());',
                'vf_kv("ipart", vf::MagJson<decltype(au::integer_part(M{}))>::get());',
                'vf_b("eq_self", M{} == M{}); vf_b("eq_recomposed", (au::numerator(M{}) / au::denominator(M{})) == M{});',
-               'vf_b("ne_double", M{} == (M{} * au::mag<2>()));']
-        vr = ", ".join('c11::vr<%s, M>()' % t for t in R11)
-        stm.append('{ const std::string r[] = {%s}; std::string s = "["; for (int i = 0; i < %d; ++i) { if (i) s += ","; s += r[i]; } vf_kv("vr", s + "]"); }' % (vr, len(R11)))
+               'vf_b("ne_double", M{} == (M{} * au::mag<2>()));',
+               'vf_b("neq_self", M{} != M{}); vf_b("neq_double", M{} != (M{} * au::mag<2>()));',
+               'vf_b("eq_sq_rt", au::root<2>(au::pow<2>(M{})) == M{}); vf_b("eq_div_self", (M{} / M{}) == au::ONE);']
+        lit = light_literal(m)
+        if lit is not None:
+            stm.append('vf_b("lit", std::is_same<M, std::decay_t<decltype(au::mag<%du>())>>::value);' % lit)
+        vr = ", ".join('c11::vr<%s, M>()' % t for t in TYPES)
+        stm.append('{ const std::string r[] = {%s}; std::string s = "["; for (int i = 0; i < %d; ++i) { if (i) s += ","; s += r[i]; } vf_kv("vr", s + "]"); }' % (vr, len(TYPES)))
         recs.append((rid, ["{"] + stm + ["}"]))
         meta[rid] = m
+    eq0 = len(recs)
+    for i, (ea, ma, eb, mb) in enumerate(EQ_PAIRS):
+        stm = ['using A = std::decay_t<decltype(%s)>; using B = std::decay_t<decltype(%s)>;' % (ea, eb),
+               'vf_kv("a", vf::MagJson<A>::get()); vf_kv("b", vf::MagJson<B>::get());',
+               'vf_b("eq", A{} == B{}); vf_b("ne", A{} != B{}); vf_b("eq_r", B{} == A{}); vf_b("ne_r", B{} != A{});',
+               'vf_b("same", std::is_same<A, B>::value);']
+        recs.append((eq0 + i, ["{"] + stm + ["}"]))
     cfgs = core.CORNERS if tier == "quick" else core.CFG6
     evals = 0
     dont_care = 0
     both = {}
+    counters = {"gv_result_internal_api_absent": 0, "composite_literals": 0, "equality_pairs": len(EQ_PAIRS)}
     gv_probes = []   # (cfg-independent) get_value<T> accept / reject programs decided from the model
     for rid, m in enumerate(mags):
-        for t in R11:
+        for t in TYPES:
             verdict, ev = expected_rep(t, m)
             if verdict is None:
                 continue
             code = "constexpr auto v = au::get_value<%s>(%s); (void)v;" % (t, mag_expr(m))
             gv_probes.append(core.Probe((rid, t), code, "accept" if verdict else "reject", {"m": m, "t": t}))
-    if tier == "quick":
-        gv_probes = [p for i, p in enumerate(gv_probes) if p.expect == "reject" and i % 5 == 0 or p.expect == "accept" and i % 9 == 0]
-    for cfg in cfgs:
+    skipped, cost, nprobes = [], 0.0, 0
+    cfgs = list(core.CORNERS) + [c for c in cfgs if c not in core.CORNERS]
+    for cfg in list(cfgs):
+        t_start = run.elapsed()
+        if run.time_left() < 1.3 * cost + 30:
+            skipped.append(str(cfg))
+            cfgs.remove(cfg)
+            continue
         res, failed = psx.run_dump(cfg, recs, os.path.join(run.wd, cfg.name), "c11", PRE2, flags=cflags(cfg),
                                    chunk=max(10, len(recs) // (core.NCPU * 2) + 1))
         for r, diag in failed.items():
-            run.violation("C11:does-not-compile:%s" % str(model.mag_key(meta[r])),
-                          "%s: classification/representability queries on magnitude %s do not compile: %s" % (cfg, model.mag_key(meta[r]), diag))
+            mk = str(model.mag_key(meta[r])) if r < eq0 else "pair:%s|%s" % EQ_PAIRS[r - eq0][0:3:2]
+            key = "C11:does-not-compile:%s" % mk
+            run.violation(key, "%s: classification/representability/equality queries on magnitude %s do not compile: %s" % (cfg, mk, diag),
+                          run.write_replay(key, {"kind": "program", "config": str(cfg), "stmts": recs[r][1], "must_compile": True}))
         for r, o in res.items():
+            if r >= eq0:
+                ea, ma, eb, mb = EQ_PAIRS[r - eq0]
+                ma, mb = [{b: Fr(e) for b, e in x.items() if e != 0} for x in (ma, mb)]
+                evals += 5
+                key = "C11:equality-pair::%s|%s" % (ea, eb)
+                want = model.mag_key(ma) == model.mag_key(mb)
+                got = {k: o[k] for k in ("eq", "ne", "eq_r", "ne_r", "same")}
+                bad = []
+                for side, mm in (("a", ma), ("b", mb)):
+                    if model.mag_key(model.mag_from_readout(o[side])) != model.mag_key(mm):
+                        bad.append("%s reads out as %s, exact %s" % ((ea, eb)[side == "b"], o[side], model.mag_key(mm)))
+                if got != {"eq": want, "ne": not want, "eq_r": want, "ne_r": not want, "same": want}:
+                    bad.append("==/!=/type identity of `%s` and `%s` are %s; the exact values are %s" % (ea, eb, got, "equal" if want else "different"))
+                both.setdefault("equality", set()).add(want)
+                if bad:
+                    run.violation(key, "%s: %s" % (cfg, "; ".join(bad)),
+                                  run.write_replay(key, {"kind": "program", "config": str(cfg), "stmts": recs[r][1], "observed": o}))
+                continue
             m = meta[r]
             mk = str(model.mag_key(m))
 
@@ -233,13 +421,22 @@ def check(run):
             for k, want in (("num", num), ("den", den), ("ipart", ip)):
                 if model.mag_key(model.mag_from_readout(o[k])) != model.mag_key(want):
                     viol(k, "%s(%s) = %s, expected %s" % (k, mk, o[k], model.mag_key(want)))
-            if not (o["eq_self"] and o["eq_recomposed"]) or o["ne_double"]:
-                viol("equality", "magnitude equality misbehaves for %s: %s" % (mk, {k: o[k] for k in ("eq_self", "eq_recomposed", "ne_double")}))
-            for t, (outcome, val, rep) in zip(R11, o["vr"]):
+            eqs = {k: o[k] for k in ("eq_self", "eq_recomposed", "ne_double", "neq_self", "neq_double", "eq_sq_rt", "eq_div_self")}
+            if eqs != {"eq_self": True, "eq_recomposed": True, "ne_double": False, "neq_self": False, "neq_double": True,
+                       "eq_sq_rt": True, "eq_div_self": True}:
+                viol("equality", "magnitude equality misbehaves for %s: %s" % (mk, eqs))
+            if "lit" in o:
+                counters["composite_literals"] += 1
+                if not o["lit"]:
+                    viol("literal", "mag<%d>() is not the same type as the product of its prime powers %s" % (light_literal(m), mk))
+            for t, (outcome, val, rep, gv) in zip(TYPES, o["vr"]):
                 evals += 1
                 verdict, ev = expected_rep(t, m)
                 rep = bool(rep)
-                if rep != (outcome == 0):
+                if outcome < 0:
+                    counters["gv_result_internal_api_absent"] += 1
+                    val = gv
+                elif rep != (outcome == 0):
                     viol("representable-vs-outcome", "representable_in<%s>(%s)=%s but get_value_result outcome=%d" % (t, mk, rep, outcome), t)
                 both.setdefault(t, set()).add(rep)
                 if verdict is None:
@@ -249,20 +446,34 @@ def check(run):
                         t, mk, rep, ("~2^%.1f" % approx_log2(m)), "lies" if verdict else "does not lie"), t)
                     continue
                 if rep:
-                    if t in I8:
-                        if ev is not None and int(val) != ev:
-                            viol("value", "get_value<%s>(%s) = %s, exact %s" % (t, mk, val, ev), t)
+                    if gv != val:
+                        viol("get_value-vs-result", "get_value<%s>(%s) returns %s but get_value_result<%s> holds %s" % (t, mk, gv, t, val), t)
+                    if base_t(t) in I8:
+                        if ev is not None and int(gv) != ev:
+                            viol("value", "get_value<%s>(%s) = %s, exact %s" % (t, mk, gv, ev), t)
                     else:
-                        got = parse_hexfloat(val)
+                        got = parse_hexfloat(gv)
+                        if ev is None:
+                            ev = exact_value(m)
+                            ev = None if ev is None else Fr(ev)
                         if got is None or got <= 0:
-                            viol("value-not-positive", "get_value<%s>(%s) = %s (must be strictly positive and finite)" % (t, mk, val), t)
+                            viol("value-not-positive", "get_value<%s>(%s) = %s (must be strictly positive and finite)" % (t, mk, gv), t)
                         elif ev is not None:
                             if abs(got - ev) > 4 * ulp(t, ev):
                                 nulp = abs(got - ev) / ulp(t, ev)
                                 viol("value-off-by-le64ulp" if nulp <= 64 else "value", "get_value<%s>(%s) = %s differs from the exact value by %.3g ulp" % (
-                                    t, mk, val, float(nulp)), t)
-        pres, _ = core.run_probes(cfg, gv_probes, os.path.join(run.wd, "gv_" + cfg.name), "gv", PRE2, flags=cflags(cfg))
-        for p in gv_probes:
+                                    t, mk, gv, float(nulp)), t)
+        # get_value<T> as a program: every predicted-reject pair; predicted-accept pairs are already instantiated by the
+        # dump above (c11::Gv) whenever the library says "representable", so quick re-probes only a 1/9 slice of them plus
+        # every pair on which the dump disagreed with the model (kept in batches of their own)
+        odd = set((r, t) for r, o in res.items() if r < eq0 for t, x in zip(TYPES, o["vr"]) if bool(x[2]) != expected_rep(t, meta[r])[0])
+        sel = [p for i, p in enumerate(gv_probes) if p.expect == "reject" or tier != "quick" or i % 9 == 0 or p.pid in odd]
+        pres = {}
+        for part, tag in (([p for p in sel if p.pid not in odd], "gv"), ([p for p in sel if p.pid in odd], "gvo")):
+            if part:
+                pres.update(core.run_probes(cfg, part, os.path.join(run.wd, tag + "_" + cfg.name), tag, PRE2, flags=cflags(cfg))[0])
+        nprobes += len(sel)
+        for p in sel:
             v, diag = pres[p.pid]
             evals += 1
             if v != p.expect:
@@ -271,19 +482,31 @@ def check(run):
                 run.violation(key, "%s: get_value<%s>(%s) is %sed by the compiler; the exact value is %s (%s)" % (
                     cfg, p.meta["t"], mk, v, "representable" if p.expect == "accept" else "not representable", diag[:200]),
                     run.write_replay(key, {"kind": "program", "config": str(cfg), "code": p.code, "expected": p.expect, "observed": v}))
+        cost = max(cost, run.elapsed() - t_start)
+    if skipped:
+        counters["configs_skipped_for_deadline"] = skipped
     run.cov.update({
-        "evaluations": evals, "programs": (len(recs) + len(gv_probes)) * len(cfgs), "magnitudes": len(mags), "types": len(R11),
-        "get_value_probes": len(gv_probes), "dont_care": dont_care,
+        "evaluations": evals, "programs": len(recs) * len(cfgs) + nprobes, "magnitudes": len(mags), "types": len(TYPES),
+        "get_value_probes": nprobes // max(1, len(cfgs)), "dont_care": dont_care,
         "distinct_nontrivial": sum(1 for t, s in both.items() if len(s) == 2),
-        "rule": "magnitudes = products of <=3 base powers over primes up to 2^64-59 and pi with integer/fractional exponents straddling every type's limits "
-                "(2^7..2^64, FLT/DBL/LDBL max, min normal, denormal) x 11 arithmetic types; per (magnitude, type): representable_in, get_value_result outcome/value, "
-                "classification and split traits read out and compared with exact big-integer / 90-digit arithmetic; get_value<T> itself is an accept/reject probe. "
-                "distinct_nontrivial = number of types for which both representable and non-representable magnitudes were observed.",
-        "configs": [str(c) for c in cfgs], "exhaustive": True, "exhaustive_note": "the stated finite grid is enumerated completely",
+        "rule": "magnitudes = products of <=3 base powers over primes up to 2^64-59 and pi with integer/fractional exponents (denominators 2..5, numerators up to 49153) "
+                "straddling every type's limits (2^7..2^64 incl. 3-5-7-smooth neighbours of each limit, FLT/DBL/LDBL max, min normal, half the smallest denormal, reached by powers "
+                "of 2, 3, 7, 10, by square/cube/4th/5th roots and by pi*2^k, sqrt3*2^k, 3^a*2^b) x 13 arithmetic types (R11 + long long, unsigned long long); per (magnitude, type): "
+                "representable_in, get_value<T> itself (instantiated exactly when the library says representable; compared bit-for-bit with get_value_result where that internal "
+                "entry point exists), classification and split traits read out and compared with exact big-integer / 90-digit arithmetic; get_value<T> is in addition an "
+                "accept/reject probe for every decided (magnitude, type); ==, != and type identity on self / doubled / sqrt(square) / m/m and on an enumerated list of "
+                "differently constructed equal and close-but-different magnitudes; mag<N>() literals of composite N against the product of prime powers. "
+                "distinct_nontrivial = number of types (plus the equality-pair list) for which both outcomes were observed.",
+        "configs": [str(c) for c in cfgs], "exhaustive": not skipped,
+        "exhaustive_note": "the stated finite grid is enumerated completely" if not skipped else "configurations skipped to respect the deadline: %s" % skipped,
         "samples": [{"magnitude": str(model.mag_key(m))} for m in mags[:: max(1, len(mags) // 6)]][:6],
     })
+    run.cov.update(counters)
     run.assumptions += ["floating representability has don't-care bands within 8 ulp of max(T) and across the denormal range [denorm_min/2, min normal]",
-                        "floating values must be strictly positive and within 4 ulp of the exact real (ulp of the target type at the exact value)"]
+                        "floating values must be strictly positive and within 4 ulp of the exact real (ulp of the target type at the exact value)",
+                        "integer_part is judged by the library's documented base-wise definition (product of prime^floor(exponent) over bases with exponent >= 1; pi contributes 1), "
+                        "not as floor of the real value",
+                        "long long / unsigned long long are judged with the int64_t / uint64_t ranges (LP64)"]
 
 
 def replay(path):
@@ -301,7 +524,7 @@ def replay(path):
         return 0
     res, failed = psx.run_dump(cfg, [(0, r["stmts"])], wd, "rp", PRE2, flags=cflags(cfg))
     print("observed now:", res.get(0), failed)
-    if failed or res.get(0) == r.get("observed"):
+    if failed or (not r.get("must_compile") and res.get(0) == r.get("observed")):
         print("VIOLATION property=C11 replay=%s" % path)
         return 1
     return 0
